@@ -8,7 +8,7 @@ MANIFEST = {
                'enumerated data choice points (preemption bound x fault budget), event-log accounting oracle',
   'text': 'The real writeForever()/writeCachedDataPoints() runs on a writer thread against a storing thread; every '
           'exists/create/write call of the in-memory backend is a choice {ok, raise}. All executions with <=1 '
-          'preemption and <=1 fault (thorough: 2 and 2) are run for create-rate limiting on/off and the write '
+          'preemption and <=1 fault (thorough: 2 preemptions x 1 fault and 1 preemption x 2 faults) are run for create-rate limiting on/off and the write '
           'strategies; each drained batch must be followed by exactly one write of exactly its points under its '
           'own metric while the file exists, or be counted as a dropped create, or be reported as an error; '
           'counters must add up and nothing stored may vanish.',
@@ -32,7 +32,13 @@ def jobs(ctx):
   INF = float('inf')
   for strat in ctx.pick(QUICK_STRATS, ALL_STRATS):
     for creates in (INF, 1):
-      out.append((base(strat, creates), ctx.pick((1, 1), (2, 2) if strat in QUICK_STRATS else (1, 2))))
+      if ctx.thorough:
+        # (2 preemptions x 2 faults together is ~2M executions per job: the two deviations are deepened separately)
+        out.append((base(strat, creates), (1, 2)))
+        if strat in QUICK_STRATS:
+          out.append((base(strat, creates), (2, 1)))
+      else:
+        out.append((base(strat, creates), (1, 1)))
       if ctx.thorough:
         out.append((dict(base(strat, creates), all_writer_lines=True), (1, 1)))
   if not ctx.thorough:
@@ -44,7 +50,7 @@ def jobs(ctx):
 def run(ctx):
   writerh.run_jobs(ctx, jobs(ctx), 'C03', required=('write_ok', 'fault_injected', 'dropped_create',
                                                      'store_after_first_drain'))
-  ctx.add(bounds={'preemptions': ctx.pick(1, 2), 'faults': ctx.pick(1, 2), 'passes': 2, 'metrics': 3,
+  ctx.add(bounds={'preemptions_x_faults': ctx.pick('1x1', '2x1 and 1x2'), 'passes': 2, 'metrics': 3,
                   'create_rate_limit': ['off', '1/min (burst 1)']})
   ctx.assumptions += ['writer lines not mentioning cache/reactor/sleep are not scheduling points (thorough re-checks '
                       'with all lines at bound 1)', 'backend = in-memory verifmem plugin (whisper absent)']
